@@ -20,8 +20,9 @@ fn class_visible(p: u32) -> bool { p != P_PROVIDE_HELPER }
 
 fn prep_pool(w: &mut PoolWorld, funded: bool) {
     if funded {
-        assert_eq!(w.exec(P_PROVIDE, 10_000), 0, "setup provide");
-        assert_eq!(w.exec(P_SWAP_DIRECT, 10_000), 0, "setup swap");
+        // large enough that the pending protocol fee exceeds the collection threshold (CollectProtocolFees really moves funds)
+        assert_eq!(w.exec(P_PROVIDE, 10_000_000), 0, "setup provide");
+        assert_eq!(w.exec(P_SWAP_DIRECT, 20_000_000), 0, "setup swap");
     }
 }
 
@@ -65,7 +66,7 @@ fn pool_case(out: &mut Out, kind: PoolKind, funded: bool, fl: u32, p: u32) {
 }
 
 fn pools(out: &mut Out) {
-    let kinds = [PoolKind::PairNN, PoolKind::PairNC, PoolKind::TrioNNN, PoolKind::TrioNNC];
+    let kinds = [PoolKind::PairNN, PoolKind::PairNC, PoolKind::TrioNNN, PoolKind::TrioNNC, PoolKind::StableNN, PoolKind::StableNC];
     for kind in kinds {
         // fresh pools start with everything enabled; a stranger cannot move the switches
         let mut w0 = match deploy(kind) { Ok(w) => w, Err(e) => { out.monitor_fail("C17", &format!("cannot deploy {}: {}", kind.name(), e), json!({"kind": kind.name()})); continue; } };
@@ -119,6 +120,11 @@ fn v_prelude(funded: bool) -> Vec<Op> {
 fn flags_op(f: (bool, bool, bool)) -> Op {
     Op::Update { u: wv::I_FOWNER, via_factory: true, p: UParams { dep: Some(f.0), wd: Some(f.1), fl: Some(f.2), owner: None, fees: None } }
 }
+/// update that names only the switches that change (the others stay `None` in the message)
+fn flags_delta_op(from: (bool, bool, bool), to: (bool, bool, bool)) -> Op {
+    let d = |a: bool, b: bool| if a != b { Some(b) } else { None };
+    Op::Update { u: wv::I_FOWNER, via_factory: true, p: UParams { dep: d(from.0, to.0), wd: d(from.1, to.1), fl: d(from.2, to.2), owner: None, fees: None } }
+}
 fn noflags(d: &wv::Dump) -> wv::Dump { let mut x = d.clone(); x.dep = true; x.wd = true; x.fl = true; x }
 
 fn vault_case(out: &mut Out, cw20: bool, funded: bool, fl: u32, p: usize) {
@@ -134,11 +140,13 @@ fn vault_case(out: &mut Out, cw20: bool, funded: bool, fl: u32, p: usize) {
     let mut step = |w: &mut wv::VaultWorld, o: &Op, hist: &mut Vec<Op>, obs: &mut Vec<String>| -> (i64, wv::Dump) {
         let c = w.exec(o); let d = w.dump(); hist.push(o.clone()); obs.push(c.to_string()); obs.extend(d.obs()); (c, d)
     };
-    let (cs, a0) = step(&mut a, &flags_op(flags), &mut hist, &mut obs);
+    // even switch patterns name all three switches, odd ones only those that change
+    let partial = (fl + p as u32) % 2 == 1;
+    let (cs, a0) = step(&mut a, &(if partial { flags_delta_op((true, true, true), flags) } else { flags_op(flags) }), &mut hist, &mut obs);
     let tc = b.exec(&op);
     let b1 = b.dump();
     let (c1, a1) = step(&mut a, &op, &mut hist, &mut obs);
-    let (cb, a2) = step(&mut a, &flags_op((true, true, true)), &mut hist, &mut obs);
+    let (cb, a2) = step(&mut a, &(if partial { flags_delta_op(flags, (true, true, true)) } else { flags_op((true, true, true)) }), &mut hist, &mut obs);
     let (c2, a3) = step(&mut a, &op, &mut hist, &mut obs);
     let replay = wv::history_replay("vault_toggles", cw20, fees, &funds, &hist);
     let mut rp = replay.clone();
